@@ -57,6 +57,32 @@ fn run_guarded(entry: &'static entries::Entry, input: Vec<u8>) -> Ran {
     }
 }
 
+/// A modelled scanner on a watchdog thread: an answer, `panic`, or `hang` (no answer within 5 s; these
+/// scanners take microseconds). A hang is reported as a property failure of the implementation (T3).
+/// After three hangs of one op in this process its remaining requests are not run any more (each would
+/// cost another deadline and another spinning thread); they are answered `skipped`, which can only
+/// happen in a run that already reports the hangs.
+fn run_scan_guarded(req: &str, op: &str) -> Outcome {
+    use std::{collections::HashMap, sync::Mutex};
+    static HANGS: Mutex<Option<HashMap<String, u32>>> = Mutex::new(None);
+    if HANGS.lock().unwrap().get_or_insert_with(HashMap::new).get(op).copied().unwrap_or(0) >= 3 {
+        return Outcome::new("skipped");
+    }
+    let owned = req.to_owned();
+    let r = scan::with_deadline(move || {
+        let toks: Vec<&str> = owned.split(' ').collect();
+        scan::run(&toks).unwrap_or_else(Outcome::bad)
+    });
+    match r {
+        Some(Ok(o)) => o,
+        Some(Err(())) => Outcome::new("panic"),
+        None => {
+            *HANGS.lock().unwrap().get_or_insert_with(HashMap::new).entry(op.to_owned()).or_insert(0) += 1;
+            Outcome { imp: "hang".into(), t3: vec!["the implementation did not return within 5 s".into()] }
+        }
+    }
+}
+
 fn run_ep(name: &str, input: Vec<u8>) -> Outcome {
     let Some(entry) = entries::ENTRIES.iter().find(|e| e.name == name) else {
         return Outcome::bad();
@@ -83,8 +109,8 @@ fn run_ep(name: &str, input: Vec<u8>) -> Outcome {
 
 fn run(req: &str) -> Outcome {
     let toks: Vec<&str> = req.split(' ').collect();
-    if let Some(o) = scan::run(&toks) {
-        return o;
+    if scan::is_scan_op(toks[0]) {
+        return run_scan_guarded(req, toks[0]);
     }
     match toks.as_slice() {
         ["c17.ep", name, h] => match unh(h) {
